@@ -1082,3 +1082,55 @@ def check_client_state(ck, rule, classes=None):
                                "can observe a previous response" % (q.stmt_text(n)[:50], cname, how, attr, sorted(allowed)), q.loc(fi, n))
     ck.stat("client_state_stores", n3)
     return n3
+
+
+# ---------------------------------------------------------------------------
+# a small total evaluator for predicates over one integer quantity (folding, no repository code involved)
+# ---------------------------------------------------------------------------
+class _NoFold(Exception):
+    pass
+
+
+def fold_int_predicate(expr, quantity, value):
+    """value of `expr` when the expression spelled `quantity` (ast.unparse text) is the integer `value`; raises AnalysisError for
+    anything outside: constants, not / and / or, comparisons, bool() / int() / len-free arithmetic on the quantity"""
+    import operator
+    cmpops = {ast.Eq: operator.eq, ast.NotEq: operator.ne, ast.Lt: operator.lt, ast.LtE: operator.le, ast.Gt: operator.gt, ast.GtE: operator.ge,
+              ast.Is: operator.is_, ast.IsNot: operator.is_not}
+
+    def ev(e):
+        if ast.unparse(e) == quantity:
+            return value
+        if isinstance(e, ast.Constant) and isinstance(e.value, (int, bool, float)) or (isinstance(e, ast.Constant) and e.value is None):
+            return e.value
+        if isinstance(e, ast.UnaryOp) and isinstance(e.op, ast.Not):
+            return not ev(e.operand)
+        if isinstance(e, ast.UnaryOp) and isinstance(e.op, ast.USub):
+            return -ev(e.operand)
+        if isinstance(e, ast.BoolOp):
+            vals = [ev(v) for v in e.values]
+            out = vals[0]
+            for v in vals[1:]:
+                out = (out and v) if isinstance(e.op, ast.And) else (out or v)
+            return out
+        if isinstance(e, ast.Compare) and all(type(o) in cmpops for o in e.ops):
+            left = ev(e.left)
+            for o, r in zip(e.ops, e.comparators):
+                right = ev(r)
+                if not cmpops[type(o)](left, right):
+                    return False
+                left = right
+            return True
+        if isinstance(e, ast.Call) and isinstance(e.func, ast.Name) and e.func.id in ("bool", "int") and len(e.args) == 1 and not e.keywords:
+            v = ev(e.args[0])
+            return bool(v) if e.func.id == "bool" else int(v)
+        if isinstance(e, ast.BinOp) and isinstance(e.op, (ast.Add, ast.Sub)):
+            a, b = ev(e.left), ev(e.right)
+            return a + b if isinstance(e.op, ast.Add) else a - b
+        if isinstance(e, ast.IfExp):
+            return ev(e.body) if ev(e.test) else ev(e.orelse)
+        raise _NoFold(ast.unparse(e))
+    try:
+        return ev(expr)
+    except _NoFold as ex:
+        raise AnalysisError("predicate not folded: `%s` in `%s`" % (ex, ast.unparse(expr)))
